@@ -192,22 +192,27 @@ def dup_path_domain(case):
     return any(len(v) == 2 for v in cls.values())
 
 
-KNOWN_REPEAT = "repeated-lib-later-no-as-needed-ignored"
+KNOWN_REPEAT = "repeated-lib-mention-flags-ignored"
 
 
 def repeat_domain_libs(case):
-    """Exact domain of the second known finding: a library named twice with the same path text,
-    the first time under --as-needed and a later time without it, that satisfies no non-weak
-    reference. The statement and GNU ld list it (it was linked without --as-needed); wild keeps
-    only the first mention's flags and drops it."""
-    _, occ, satisfies, _ = model_needed(case)
-    first = {}
-    out = set()
+    """Exact domain of the second known finding: a library mentioned more than once under the same
+    path text where the mentions differ in their --as-needed state, or mix a linker-script mention
+    with a direct `-l` mention. wild loads each path once: the first *direct* command-line mention
+    wins (they are all registered before any linker script is read), else the first script
+    mention; the flags (and position) of every other mention are ignored. GNU ld and the
+    statement treat the library as linked without --as-needed if any mention is."""
+    _, occ, _, _ = model_needed(case)
+    groups = {}
     for j, an, sp in occ:
-        key = (j, "typed" if sp == "path" else "searched")
-        if key not in first:
-            first[key] = an
-        elif first[key] and not an and j not in satisfies:
+        groups.setdefault((j, "typed" if sp == "path" else "searched"), []).append((an, sp))
+    out = set()
+    for (j, _), lst in groups.items():
+        if len(lst) < 2:
+            continue
+        flags = {an for an, _ in lst}
+        direct = {sp == "l" for _, sp in lst}
+        if len(flags) == 2 or len(direct) == 2:
             out.add(j)
     return out
 
@@ -371,6 +376,9 @@ class C37(Check):
         ej = [j for j, _ in needed]
         if None in gj:
             return "needed-string"
+        rep = repeat_domain_libs(case)
+        if rep and [j for j in gj if j not in rep] == [j for j in ej if j not in rep]:
+            return KNOWN_REPEAT
         if gj == ej:
             return "needed-string"
         if sorted(gj) == sorted(ej):
@@ -386,8 +394,6 @@ class C37(Check):
                 return "extra:as-needed-lib-referenced-from-lib-only"
             return "extra:unneeded-as-needed-lib"
         if missing and not extra:
-            if set(missing) <= repeat_domain_libs(case):
-                return KNOWN_REPEAT
             forced = {j for j, an, _ in occ if not an}
             return "missing:no-as-needed-lib" if set(missing) & forced else "missing:needed-as-needed-lib"
         return "needed-set"
